@@ -54,6 +54,7 @@ typedef struct {
     uint8_t kind, ok, present; /* present: SCPI_Parameter-level success where observable */
     int64_t i; uint64_t u; double d; float f;
     int type;                 /* token type for RAW */
+    int to_mask;              /* RAW: bit k set = the k-th of SCPI_ParamToInt32/UInt32/Int64/UInt64/Float/Double returned TRUE on the token */
     char raw[64]; int rawlen; /* first bytes of the raw extent (CHARS/BLOCK/RAW/COPYTEXT result) */
     long rawoff;              /* offset of raw extent from start of unit header */
     int fullrawlen;
